@@ -88,6 +88,7 @@ type result struct {
 	drop  bool   // close the connection without answering
 	wait  func() // executed outside the mutex before replying (blocking statements)
 	delay time.Duration
+	note  string // summary of the reply for the event log (the caller's view)
 }
 
 func (m *myconn) send(r *result, binary bool) error {
@@ -164,6 +165,7 @@ func (w *World) Dial(ctx context.Context, from, caller, server string) (net.Conn
 		return nil, fmt.Errorf("fakemysql: no such host %s", server)
 	}
 	if !reach {
+		w.unanswered(caller, server, "dial", "")
 		<-ctx.Done()
 		return nil, ctx.Err()
 	}
@@ -261,6 +263,9 @@ func (w *World) serve(c net.Conn, from, host string) {
 			return
 		}
 		if !reach {
+			if q[0] == 0x03 {
+				w.unanswered(user, host, "", string(q[1:]))
+			}
 			continue // swallowed: the caller times out and closes
 		}
 		switch q[0] {
@@ -385,4 +390,23 @@ func (w *World) runStmt(m *myconn, text string, args []string, binary bool) bool
 		time.Sleep(d)
 	}
 	return m.send(r, binary) == nil
+}
+
+// unanswered records a dial or statement that the server never sees because the caller cannot
+// reach it (the caller runs into its own deadline), and tells the AfterStmt hooks with Errno -3.
+func (w *World) unanswered(caller, host, class, text string) {
+	w.mu.Lock()
+	defer w.mu.Unlock()
+	if class == "" {
+		q := strings.TrimSpace(reSpace.ReplaceAllString(text, " "))
+		class, _ = classify(q)
+		if class == "" {
+			class = "unknown"
+		}
+	}
+	w.LogLocked(Event{Kind: "sql", Who: caller, Host: host, Class: class, Res: "unreachable", Err: -3})
+	ctx := &StmtCtx{Caller: caller, Host: host, Class: class, Errno: -3, Note: "unreachable"}
+	for _, f := range w.AfterStmt {
+		f(w, ctx)
+	}
 }
